@@ -284,7 +284,12 @@ impl PatchManager {
             if last_boot_patch.number != bad_patch_number
                 && self.validate_patch_is_bootable(&last_boot_patch).is_ok()
             {
-                self.patches_state.next_boot_patch = Some(last_boot_patch);
+                // Only fall back if we no longer have a next boot patch. A different patch that
+                // is still selected (e.g. one installed while the bad patch was booting, or one
+                // unrelated to a rolled back patch number) must stay selected.
+                if self.patches_state.next_boot_patch.is_none() {
+                    self.patches_state.next_boot_patch = Some(last_boot_patch);
+                }
             } else {
                 self.patches_state.last_booted_patch = None;
                 // No need to log failure – delete_patch_artifacts logs for us.
